@@ -351,6 +351,8 @@ def discharge(interp, obls, timeout_ms, props_of=None, ext_budget=None):
         t1 = time.time()
         if z3.is_true(g):
             o.status, o.backend = "discharged", "simplifier"
+        elif z3.is_false(g) and not o.pc:
+            o.status, o.backend = "failed", "simplifier"      # a decided (syntactic / native) obligation that does not hold
         else:
             base.push()
             base.add(*o.pc)
